@@ -597,12 +597,13 @@ func init() {
 		ID:    "C03",
 		Title: "Conversions between basic, string and byte/rune slice types match Go",
 		Explanation: "Decided (the structural part): V1 a conversion is compiled only after the admission chain (identical types, same reflect type, nil to nillable, ConvertibleTo) and is otherwise rejected before execution; no conversion closure is created before the chain; Comp.Converter rejects non-convertible pairs first; U/A2 the 17 per-kind conversion closures of Comp.convert are uniform and extract the result with the accessor of their kind; " +
-			"V2 untyped.Lit.Convert has an arm for every basic kind plus Interface and Slice, rejects what no arm converted, and converts the result to exactly the requested reflect type. The oracle for values is reflect.Value.Convert (trusted to implement Go's conversion). " +
+			"V2 untyped.Lit.Convert has an arm for every basic kind plus Interface and Slice, rejects what no arm converted, and converts the result to exactly the requested reflect type; S1 a conversion to a slice type is never folded into a compile-time constant (every EvalConst / ConstTo(target) / compile-time convert() site of Comp.convert is guarded by target.Kind() != Slice), so []byte(\"abc\") allocates at each execution. The oracle for values is reflect.Value.Convert (trusted to implement Go's conversion). " +
 			"Not decided: the truth table of ConvertibleTo against the spec, value results, typed-constant overflow.",
 		Assumptions: []string{"reflect.Value.Convert implements Go conversions for the kinds involved", "xreflect.Type.ConvertibleTo"},
 		Rules: []func(*Ctx){func(c *Ctx) {
 			ruleConversionGate(c, "V1-conversion-gate")
 			ruleUntypedConvert(c, "V2-untyped-convert")
+			ruleSliceConversionNotFolded(c, "S1-slice-not-folded")
 			ruleUniformity(c, "fast", []string{"convert.go"}, "U-uniform")
 			ruleAccessorFiles(c, "fast", []string{"convert.go"}, "A2-accessor")
 			c.Floor("U-uniform", 12)
@@ -611,6 +612,8 @@ func init() {
 			{Name: "gate-falls-through", File: "fast/convert.go", Old: "\t} else {\n\t\tc.Errorf(\"cannot convert %v to %v: %v\", e.Type, t, nodeOpt)\n\t\treturn nil\n\t}", New: "\t} else {\n\t\tc.Warnf(\"cannot convert %v to %v: %v\", e.Type, t, nodeOpt)\n\t}", Canary: true},
 			{Name: "uint16-result-read-as-int", File: "fast/convert.go", Old: "return uint16(val.Uint())", New: "return uint16(val.Int())", Canary: true},
 			{Name: "converter-check-dropped", File: "fast/convert.go", Old: "\tif !tin.ConvertibleTo(tout) {\n\t\tc.Errorf(\"cannot convert from <%v> to <%v>\", tin, tout)\n\t}\n", New: ""},
+			{Name: "string-to-bytes-folded", File: "fast/convert.go", Old: "\tif e.Const() && t.Kind() != xr.Slice {\n\t\teret.EvalConst(COptKeepUntyped)", New: "\tif e.Const() {\n\t\teret.EvalConst(COptKeepUntyped)", Canary: true},
+			{Name: "untyped-string-converted-to-slice-constant", File: "fast/convert.go", Old: "\t\tif t.Kind() == xr.Slice {\n", New: "\t\tif t.Kind() == xr.Slice && false {\n"},
 			{Name: "untyped-convert-no-exact-type", File: "base/untyped/lit.go", Old: "\tif v.Type() != t.ReflectType() {\n\t\tret = v.Convert(t.ReflectType())\n\t}\n\treturn ret\n}\n\n// EXTENSION", New: "\t_ = v\n\treturn ret\n}\n\n// EXTENSION"},
 		},
 	})
@@ -618,12 +621,13 @@ func init() {
 		ID:    "C04",
 		Title: "Untyped constant expressions are exact and agree with Go's constant arithmetic",
 		Explanation: "Decided: P1 operator pass-through: BinaryExprUntyped / ShiftUntyped / UnaryExprUntyped hand go/constant the node's own operator (through tokenWithoutAssign) with the operands in order; untyped division truncates (QUO_ASSIGN) exactly when both operands are of Int or Rune kind; && / || compute the matching boolean operation; the compound-assignment token tables pair each X_ASSIGN with X; " +
-			"EX1 exactness: a constant.Value reaches an integer-category result only through exact extraction, never through constant.Float64Val, and every conversion to an integer kind is followed by a convert-back-and-compare overflow / truncation check. " +
+			"EX1 exactness: a constant.Value reaches an integer-category result only through exact extraction, never through constant.Float64Val, and every conversion to an integer kind is followed by a convert-back-and-compare overflow / truncation check; K1 every path of every function of base/untyped that uses constant.Int64Val / Uint64Val is enumerated (exact flag and target category concretely) and the first result, undefined when the flag is false, never flows into a result of the function on such a path. " +
 			"Not decided: go/constant's arithmetic, precision beyond what go/constant keeps, exactness of *big.Float conversions.",
 		Assumptions: []string{"go/constant implements exact constant arithmetic"},
 		Rules: []func(*Ctx){func(c *Ctx) {
 			ruleUntypedOperators(c, "P1-operator-passthrough")
 			ruleConstantExactness(c, "EX1-exactness")
+			ruleInexactUndefined(c, "K1-inexact-undefined")
 		}},
 		Mutants: []Mutant{
 			{Name: "compare-uses-fixed-operator", File: "fast/binary.go", Old: "flag := constant.Compare(x.Val, op, y.Val)", New: "flag := constant.Compare(x.Val, token.EQL, y.Val)", Canary: true},
@@ -631,7 +635,8 @@ func init() {
 			{Name: "binaryop-operands-swapped", File: "fast/binary.go", Old: "zobj := constant.BinaryOp(x.Val, op2, y.Val)", New: "zobj := constant.BinaryOp(y.Val, op2, x.Val)"},
 			{Name: "table-entry-swapped", File: "fast/binary.go", Old: "\ttoken.OR_ASSIGN:      token.OR,\n\ttoken.XOR_ASSIGN:     token.XOR,", New: "\ttoken.OR_ASSIGN:      token.XOR,\n\ttoken.XOR_ASSIGN:     token.OR,"},
 			{Name: "shr-dispatched-as-shl", File: "fast/binary.go", Old: "return c.ShiftUntyped(node, token.SHR, x, y)", New: "return c.ShiftUntyped(node, token.SHL, x, y)"},
-			{Name: "overflow-check-dropped-for-integers", File: "base/untyped/lit.go", Old: "\t\t\tif src != vback.Interface() {\n\t\t\t\toutput.Errorf(\"constant %v overflows <%v>\", src, to)\n\t\t\t\treturn nil\n\t\t\t}\n", New: ""},
+			{Name: "huge-int-to-float-uses-undefined-result", File: "base/untyped/lit.go", Old: "\t\t\tif !exact {\n\t\t\t\t// beyond the range of 64-bit integers: round to the nearest float64\n\t\t\t\tn, exact = constant.Float64Val(src)\n\t\t\t}\n", New: "", Canary: true},
+			{Name: "overflow-check-dropped-for-integers", File: "base/untyped/lit.go", Old: "\t\t\tvback := vto.Convert(t1)\n\t\t\tif src != vback.Interface() {", New: "\t\t\tvback := vto.Convert(t1)\n\t\t\tif false && src != vback.Interface() {"},
 		},
 	})
 }
